@@ -41,3 +41,12 @@ int fx_nested_noisy_s(char *dest, size_t dmax) {      /* dmax is not range-check
     if (l == dmax) { invoke_safe_str_constraint_handler("unterminated", dest, ESNOSPC); return ESNOSPC; }
     return 0;
 }
+
+int fx_touch_first_s(char *dest, size_t dmax, const char *src) {   /* writes dest before the RSIZE check */
+    if (!dest) { invoke_safe_str_constraint_handler("dest is null", NULL, ESNULLP); return ESNULLP; }
+    if (dmax == 0) { invoke_safe_str_constraint_handler("dmax is 0", dest, ESZEROL); return ESZEROL; }
+    dest[0] = '\0';
+    if (dmax > 4096) { invoke_safe_str_constraint_handler("dmax exceeds max", dest, ESLEMAX); return ESLEMAX; }
+    while (dmax) { *dest = *src; if (!*dest) return 0; dest++; src++; dmax--; }
+    invoke_safe_str_constraint_handler("no space", dest, ESNOSPC); return ESNOSPC;
+}
